@@ -242,6 +242,13 @@ def run(ctx):
                     judge_mutant(ctx, t, cls, b'\x05' + m, klass, True)
             judge_mutant(ctx, t, cls, b'\x04' + packed[1:], 'wrong-leading-byte', True)
             judge_mutant(ctx, t, cls, packed[1:], 'missing-leading-byte', False)
+    # collections of 9, 10, 11 ... hundreds of elements, wide combs, deep nestings, long strings
+    for k, (label, t, v) in enumerate(G.large_values(rng, ctx.quick)):
+        if ctx.mine(k):
+            ctx.count('large_values')
+            packed = judge(ctx, rng, t, v)
+            if isinstance(packed, bytes) and len(packed) < 20000:
+                instr_agreement(ctx, t, v, packed)
     from rv.gen import corpus as C
     for k, (label, texpr, t, v, src) in enumerate(C.typed_values()):
         if ctx.mine(k) and T.packable(t):
